@@ -59,10 +59,10 @@ sanitize_utf8 (const char *text, size_t length)
  */
 #define SKIP(c, p, l) do { \
     if ((c) < 0x0020 || (c) == 0x007f) { \
-        if (pos + 4 >= TEXT_SIZE) /* "0x%02x" */ \
-            goto done; \
         sprintf (buf, "0x%02x", c); \
         size_t x = strlen (buf); \
+        if (pos + x >= TEXT_SIZE) /* c may be UTF8_ERROR: "0xfffffffe" */ \
+            goto done; \
         memcpy (sanitized + pos, buf, x); \
         pos += x; \
     } \
